@@ -1,7 +1,6 @@
 package rules
 
 import (
-
 	. "abverif/internal/engine"
 
 	"golang.org/x/tools/go/ssa"
